@@ -9,8 +9,9 @@
 //   long      for every length 0..300 (thorough: 0..1200): b^n for all 256 byte values b, and two rolling
 //             patterns (so every length modulo 3 meets every byte value in every position class)
 //   cred      user names: every byte string of length <= 1 without ':', every printable non-colon string of
-//             length 2, length 3 over a 12-character subset (thorough: all 94^3) x 17 passwords (empty, with
-//             ':' in every position, NUL, bytes >= 0x80, long); plus user names with ':' (refused by the setter)
+//             length 2, length 3 over a 12-character subset x 17 passwords (empty, with ':' in every position,
+//             NUL, bytes >= 0x80, long); plus user names with ':' (refused by the setter); thorough: also all
+//             94^3 printable user names of length 3 x 4 passwords of length 0..3
 //   invalid   every string of length <= 6 (thorough: 7) over {A b 9 + / = ! 0x80}: through the decoder and
 //             through an Authorization header carrying it as Basic credentials
 //   damaged   for every length 0..300: the valid encoding with one character replaced at the first, a middle
@@ -484,6 +485,7 @@ static void run_long(uint64_t i, vr::Ctx& ctx)
 
 // credentials
 static std::vector<std::string> gUsers, gPasswords;
+static std::vector<char> gPrintable;
 static void init_cred()
 {
     gUsers.push_back("");
@@ -497,9 +499,8 @@ static void init_cred()
     for (char a : printable)
         for (char b : printable)
             gUsers.push_back(std::string() + a + b);
-    std::vector<char> three = printable;
-    if (!gThorough)
-        three = { 'a', 'Z', '0', '~', '!', ' ', '@', '/', '+', '=', '.', '-' };
+    gPrintable              = printable;
+    std::vector<char> three = { 'a', 'Z', '0', '~', '!', ' ', '@', '/', '+', '=', '.', '-' };
     for (char a : three)
         for (char b : three)
             for (char c : three)
@@ -510,6 +511,18 @@ static void init_cred()
                    "a-long-password-with-every-kind-of-byte-\x01\x7f\x80\xfe\xff-and-a-colon-:-in-it" };
 }
 static void run_cred(uint64_t i, vr::Ctx& ctx) { eval_cred(ctx, gUsers[i / gPasswords.size()], gPasswords[i % gPasswords.size()]); }
+// thorough: every printable non-colon user name of length 3 x passwords of length 0, 1, 2, 3 (every alignment)
+static void run_cred3(uint64_t i, vr::Ctx& ctx)
+{
+    static const std::string pw[4] = { "", "p", "\x80\xff", "a:b" };
+    const uint64_t n               = gPrintable.size();
+    uint64_t u                     = i / 4;
+    std::string user;
+    user += gPrintable[u / (n * n)];
+    user += gPrintable[u / n % n];
+    user += gPrintable[u % n];
+    eval_cred(ctx, user, pw[i % 4]);
+}
 
 static void run_invalid(uint64_t i, vr::Ctx& ctx) { eval_text(ctx, nth_string(i, kInvalid, 8, 0, gInvalidLen), "invalid"); }
 
@@ -562,6 +575,8 @@ int main(int argc, char** argv)
     add_section("boundary", count_strings(16, 3, gBoundaryLen), run_boundary, 512);
     add_section("long", uint64_t(gMaxLen + 1) * 258, run_long, 86);
     add_section("cred", gUsers.size() * gPasswords.size(), run_cred, 17 * 32);
+    if (gThorough)
+        add_section("cred3", uint64_t(gPrintable.size()) * gPrintable.size() * gPrintable.size() * 4, run_cred3, 512);
     add_section("invalid", count_strings(8, 0, gInvalidLen), run_invalid, 512);
     add_section("damaged", uint64_t(gMaxLen + 1), run_damaged, 1);
     uint64_t total = gSecs.back().firstCase + gSecs.back().cases;
